@@ -530,10 +530,16 @@ func genLoopMagnet(r *Rng, idx int, tier string, step func(op string) string) {
 		l.pl *= 2
 	}
 	private := r.Chance(8)
-	o := step(fmt.Sprintf("new pl=%d files=%s magnet=1 private=%s cfg.AllowedFastSet=0 cfg.MaxMetadataSize=40000 multi=%s",
-		l.pl, l.filesArg(), b01(private), b01(r.Chance(50))))
+	// sometimes the data is already on disk: after the metadata arrives the torrent verifies, and the
+	// verification is held so that peer messages arrive in the Verifying state
+	seeded := r.Chance(35)
+	o := step(fmt.Sprintf("new pl=%d files=%s magnet=1 private=%s cfg.AllowedFastSet=0 cfg.MaxMetadataSize=40000 multi=%s seeded=%s",
+		l.pl, l.filesArg(), b01(private), b01(r.Chance(50)), b01(seeded)))
 	if !strings.HasPrefix(o, "ok") {
 		return
+	}
+	if seeded {
+		step(fmt.Sprintf("gate kind=%s on=1", r.Pick2("read", "read", "open")))
 	}
 	isize := atoi(obsKV(o)["isize"])
 	step("start")
@@ -684,6 +690,44 @@ func genLoopMagnet(r *Rng, idx int, tier string, step func(op string) string) {
 		}
 	}
 	do("obs metaphase=done")
+	if st := obsKV(last)["st"]; st == "Verifying" || st == "Allocating" {
+		// messages from the connected peers while allocation / verification is held
+		for s := 0; s < r.Range(2, 6); s++ {
+			var live []*mp
+			for _, p := range peers {
+				if !p.closed {
+					live = append(live, p)
+				}
+			}
+			if len(live) == 0 {
+				break
+			}
+			p := live[r.Intn(len(live))]
+			i := r.Intn(l.numPieces() + 1)
+			switch r.Intn(9) {
+			case 0:
+				do(fmt.Sprintf("msg p=%d t=have i=%d", p.k, i))
+			case 1:
+				do(fmt.Sprintf("msg p=%d t=haveall", p.k))
+			case 2:
+				do(fmt.Sprintf("msg p=%d t=bitfield bits=%s", p.k, strings.Repeat("1", l.numPieces())))
+			case 3:
+				do(fmt.Sprintf("msg p=%d t=allowedfast i=%d", p.k, i))
+			case 4:
+				do(fmt.Sprintf("msg p=%d t=unchoke", p.k))
+			case 5:
+				do(fmt.Sprintf("msg p=%d t=interested", p.k))
+			case 6:
+				do(fmt.Sprintf("msg p=%d t=request i=%d b=0 l=1", p.k, i))
+			case 7:
+				do(fmt.Sprintf("msg p=%d t=cancel i=%d b=0 l=1", p.k, i))
+			default:
+				do(fmt.Sprintf("msg p=%d t=piece i=%d b=0 l=1 data=true", p.k, i))
+			}
+		}
+		do("gate kind=open on=0")
+		do("gate kind=read on=0")
+	}
 	// data phase with whoever is still connected plus one honest seed
 	if info(last) && obsKV(last)["st"] == "Downloading" {
 		sd := &scriptPeer{k: nextK, kind: "honest"}
